@@ -136,20 +136,13 @@ def reference(case, reset_on_ctor=False, bits=7):
         return [g for g in logs if ids & g['id']]
 
     def precheck(kind, spec, l):
-        # allowed answers for discard_by_level
+        # allowed property observables of discard_by_level: '.' = answer consistent with the
+        # deliveries, 'E' = exception (only for an id mask that names several logs)
         if kind == 'id':
             sel = by_ids(spec)
             if sel and spec != sel[0]['id']:
                 return {'E'}
-            sel = sel[:1]
-        else:
-            g = find(spec)
-            sel = [g] if g else []
-        if not sel:
-            return {'1'}
-        if any(_accepts(sel[0]['filters'], l, c) for c in range(7)):
-            return {'0'}
-        return {'0', '1'}
+        return {'.'}
 
     for o in ([] if case in ('-', '') else case.split(';')):
         if not o:
@@ -240,7 +233,7 @@ def _compare(case, ir, **flags):
             if e != g:
                 return ('operation %s: expected %s, implementation answered %s' % (ops[i], e, g), i)
         elif e[0] == 'q':
-            ans = {'d1': '1', 'd0': '0'}.get(g, 'E' if g == 'E:runtime_error' else g)
+            ans = {'q': '.'}.get(g, 'E' if g == 'E:runtime_error' else g)
             if ans not in e[1][0]:
                 return ('pre-check %s answered %s; allowed %s' % (ops[i], g, sorted(e[1][0])), i)
         else:
@@ -256,8 +249,8 @@ def _compare(case, ir, **flags):
                             % (ops[i], j // 7, j % 7, x, y), i)
             for l in range(7):
                 if qpart[l] not in e[2][l]:
-                    return ('operation %s: pre-check for level %d answered %s, allowed %s (a message of that '
-                            'level passes the filters)' % (ops[i], l, qpart[l], sorted(e[2][l])), i)
+                    return ('operation %s: pre-check for level %d: %s (X = discarded although a message of that '
+                            'level is delivered, E = exception), allowed %s' % (ops[i], l, qpart[l], sorted(e[2][l])), i)
     return None
 
 
@@ -459,3 +452,25 @@ def shrink(case):
         rest = ops[:i] + ops[i + 1:]
         if rest:
             yield ';'.join(rest)
+
+
+CLAIM = {
+    'text': 'Coq theorems (Properties_C14.v) over an executable model of Filters / the four filter classes / Log / '
+            'ILogDest / Logging: level filters accept exactly l<=m, l>=m, l=m for every level; a class-list filter '
+            'exists exactly for non-empty lists of real class names and accepts exactly the named classes (all token '
+            'lists; all 64 subsets from text); for every history of settings the level pre-check never refuses a level '
+            'of a message that passes; ignore/exception/replace do what they say and the configured policy survives '
+            'the creation of logs and destinations; for every reachable world the deliveries of a message are the list '
+            'comprehension over selected logs and their destinations (each once, in order) and a "discard" of '
+            'discard_by_level implies no delivery. Comparison operators, enum orders, class texts and the bitset '
+            'size are regenerated from the source before every proof run; the rest of the model is tied by an '
+            'exhaustive-small-scope correspondence check under ASan/UBSan.',
+    'note': 'trusted: Coq kernel, extraction (ExtrOcamlBasic), regex-level translator, the hand-written model '
+            '(validated by correspondence on every run), recording destination of the harness. Three defects of the '
+            'pinned tree are repaired by fixes/C14-1..3; the pre-check is only claimed for a single id / name '
+            '(several ids throw, as documented).',
+    'technique': 'Coq proof: invariants over histories of settings and of world operations, finite-domain computation '
+                 'lifted by forallb_forall for the class texts; translator for operators/enums; model/implementation '
+                 'correspondence, exhaustive histories of <= 2 (quick) / 3 (thorough) settings x 49 messages',
+    'design_ref': 'DESIGN.md section 5, C14',
+}
